@@ -24,14 +24,14 @@ Definition tr_o7 : list action :=
     ACoordDecide 0; ACoordSendBecomeLeader ].
 
 Ltac solve_wf := vm_compute; repeat split; repeat constructor; cbn; intuition discriminate.
-Ltac solve_atomic := unfold store_atomic; cbn; intuition discriminate.
+Ltac solve_atomic := unfold store_sound, store_atomic, store_persists; cbn; intuition discriminate.
 
 Lemma wf_o7_shipped : wf_run shipped (init_world c_swap nodes0) tr_o7.
 Proof. solve_wf. Qed.
 
 (* on the shipped code (no guard in the grace loop) BecomeLeader goes to the removed node 3 *)
 Theorem leader_in_ensemble_shipped_refuted :
-  exists tr w b, run shipped (init_world c_swap nodes0) tr = Some w /\ store_atomic tr /\
+  exists tr w b, run shipped (init_world c_swap nodes0) tr = Some w /\ store_sound tr /\
                  wf_run shipped (init_world c_swap nodes0) tr /\
                  In b (w_bl w) /\ ~ In (b_leader b) (b_ens b).
 Proof.
@@ -87,6 +87,41 @@ Proof.
   eexists. eexists. split; [reflexivity|]. split; [reflexivity|]. cbn. lia.
 Qed.
 
+(* ---- the retry loop of the first Store gives up (bounded retries on a loop whose caller cannot be told): NewTerm goes
+   out in a term the store never saw, the restarted coordinator issues the same term again *)
+Definition tr_giveup : list action :=
+  [ ACoordRestart [1%N; 2%N; 3%N]; ACoordStartElection;                 (* term 3 in memory *)
+    ACoordStoreFail; ACoordStoreFail; ACoordStoreFail; ACoordStoreFail;  (* metadata store outage *)
+    ACoordStoreGiveUp;                                                   (* UpdateShardMetadata returns, electLeader carries on *)
+    ACoordSendNewTerm 1%N;                                               (* NewTerm(3) while the store holds 2 *)
+    ACoordCrash; ACoordRestart [1%N; 2%N; 3%N] ].
+
+Lemma wf_giveup : wf_run fixed (init_world c_plain nodes0) tr_giveup.
+Proof. solve_wf. Qed.
+
+Theorem store_giveup_refuted :
+  exists tr w d i n t,
+    run fixed (init_world c_plain nodes0) tr = Some w /\ store_atomic tr /\ wf_run fixed (init_world c_plain nodes0) tr /\
+    w_dur w = DCell d /\ In (MNewTerm i n t) (w_msgs w) /\ c_term d < t /\
+    exists w' k', step fixed w ACoordStartElection = Some w' /\ w_coord w' = Some k' /\ c_term (k_md k') <= t.
+Proof.
+  exists tr_giveup.
+  destruct (run fixed (init_world c_plain nodes0) tr_giveup) as [w|] eqn:E; [|vm_compute in E; discriminate].
+  exists w, c_plain, 1%nat, 1%N, 3.
+  split; [reflexivity|]. split; [unfold store_atomic; cbn; intuition discriminate|]. split; [exact wf_giveup|].
+  vm_compute in E. injection E as <-. cbn [w_dur w_msgs].
+  split; [reflexivity|]. split; [left; reflexivity|]. split; [cbn; lia|].
+  eexists. eexists. split; [reflexivity|]. split; [reflexivity|]. cbn. lia.
+Qed.
+
+(* failed Store attempts that are retried until one succeeds change nothing *)
+Example store_fail_retry_ok :
+  exists w, run fixed (init_world c_plain nodes0)
+              [ ACoordRestart [1%N; 2%N; 3%N]; ACoordStartElection; ACoordStoreFail; ACoordStoreFail; ACoordStore;
+                ACoordSendNewTerm 1%N ] = Some w /\
+            w_dur w = DCell (mkCell 3 [1%N; 2%N; 3%N] [] None SElection) /\ w_msgs w = [MNewTerm 1 1%N 3].
+Proof. eexists. split; [vm_compute; reflexivity|]. split; reflexivity. Qed.
+
 (* ---- non-vacuity: a complete election with a coordinator crash in the middle, on the fixed code *)
 Definition tr_full : list action :=
   [ ACoordRestart [1%N; 2%N; 3%N]; ACoordStartElection; ACoordStore; ACoordSendNewTerm 1%N; ACoordSendNewTerm 3%N;
@@ -111,7 +146,7 @@ Proof. solve_wf. Qed.
 
 Example full_trace_ok :
   exists w, run fixed (init_world c_plain nodes0) tr_full = Some w /\
-            store_atomic tr_full /\ wf_run fixed (init_world c_plain nodes0) tr_full /\
+            store_sound tr_full /\ wf_run fixed (init_world c_plain nodes0) tr_full /\
             w_wasleader w = [(1%N, 4)] /\ map b_leader (w_bl w) = [1%N] /\
             n_dterm (w_nodes w 1%N) = 4 /\ n_dterm (w_nodes w 3%N) = 4 /\
             w_dur w = DCell (mkCell 4 [1%N; 2%N; 3%N] [] (Some 1%N) SSteady).
